@@ -3,6 +3,7 @@ module github.com/meshplus/bitxhub/verif
 go 1.23
 
 require (
+	github.com/bytecodealliance/wasmtime-go v0.37.0
 	github.com/ethereum/go-ethereum v1.10.8
 	github.com/meshplus/bitxhub v0.0.0
 	github.com/meshplus/bitxhub-core v1.28.1-0.20230411032641-11245b4adfc5
@@ -20,7 +21,6 @@ require (
 	github.com/beorn7/perks v1.0.1 // indirect
 	github.com/binance-chain/tss-lib v1.3.3-0.20210411025750-fffb56b30511 // indirect
 	github.com/btcsuite/btcd v0.21.0-beta // indirect
-	github.com/bytecodealliance/wasmtime-go v0.37.0 // indirect
 	github.com/cbergoon/merkletree v0.2.0 // indirect
 	github.com/cespare/xxhash/v2 v2.1.1 // indirect
 	github.com/coreos/go-semver v0.3.0 // indirect
